@@ -22,7 +22,7 @@ pub fn def() -> PropDef {
         job_level,
         run_job,
         replay,
-        rule: "old configs: 10 state-bearing configs (plain, tap-hold, one-shot, layer-while-held, layer-switch, macro, caps-word, virtual key held, overrides, zippychord) each with lrld / lrld-next / lrld-prev / (lrld-num N) keys; new file content: {unchanged, 5 other valid configs (including the plain identity mapping without the old config's defzippy / overrides / virtual keys), lexically broken, unbalanced, unknown alias, bad number, empty file, missing file, path is a directory, invalid UTF-8}; request kinds: lrld (file rewritten in place), lrld-next, lrld-prev, lrld-num 2, lrld-num 9 (out of range), repeated 1-3 times back to back. Histories before the request: EVERY sequence of <= 2 steps over {press a, press b, tap a, tap b, hold a 7 ms} (keys held, pending tap-hold, active one-shot, running macro, held layer), then the request, then EVERY idle gap in {0, 1, 999, 1000, 1001} ms with the keys still held or released first, then EVERY continuation of <= 2 of {tap a, tap b, chord a+b, hold a + tap b}. Driven through a transcription of the processing loop (can_block_update_idle_waiting / handle_input_event / the REAL handle_time_ticks via hook H3). Oracle: FAILURE: no ConfigFileReload message, and outputs + continuation outputs identical to the same run on a twin of the old config whose reload keys are no-ops. SUCCESS: applied only when no output key is down or after > 1000 idle ms; applied within 3 ms once allowed; exactly one ConfigFileReload followed by one LayerChange per applied reload; afterwards the first layer is active, nothing stays pressed (2 ticks), and the continuation's output equals that of a FRESH Kanata::new of the new file.",
+        rule: "old configs: 11 state-bearing configs (plain, tap-hold, one-shot, layer-while-held, layer-switch, macro, caps-word, virtual key held, overrides, zippychord, deflocalkeys) each with lrld / lrld-next / lrld-prev / (lrld-num N) keys; new file content: {unchanged, 5 other valid configs (including the plain identity mapping without the old config's defzippy / overrides / virtual keys), lexically broken, unbalanced, unknown alias, bad number, a key name that only the old file's deflocalkeys defined, empty file, missing file, path is a directory, invalid UTF-8}; request kinds: lrld (file rewritten in place), lrld-next, lrld-prev, lrld-num 2, lrld-num 9 (out of range), repeated 1-3 times back to back. Histories before the request: EVERY sequence of <= 2 steps over {press a, press b, tap a, tap b, hold a 7 ms} (keys held, pending tap-hold, active one-shot, running macro, held layer), then the request, then EVERY idle gap in {0, 1, 999, 1000, 1001} ms with the keys still held or released first, then EVERY continuation of <= 2 of {tap a, tap b, chord a+b, hold a + tap b}. Driven through a transcription of the processing loop (can_block_update_idle_waiting / handle_input_event / the REAL handle_time_ticks via hook H3). Oracle: FAILURE: no ConfigFileReload message, and outputs + continuation outputs identical to the same run on a twin of the old config whose reload keys are no-ops. SUCCESS: applied only when no output key is down or after > 1000 idle ms; applied within 3 ms once allowed; exactly one ConfigFileReload followed by one LayerChange per applied reload; afterwards the first layer is active, nothing stays pressed (2 ticks), and the continuation's output equals that of a FRESH Kanata::new of the new file.",
         assumptions: &["permission-denied reads cannot be produced (sandbox runs as root)", "the xset side effect of linux-x11-repeat-delay-rate is excluded", "H3 sets last_tick = now - ms; the elapsed value returned by the real handle_time_ticks is checked on every call and an execution with a mismatch is re-run"],
         required_level,
         min_outcomes: 3,
@@ -47,6 +47,8 @@ const OLD: &[(&str, &str, &str, &str)] = &[
     ("vkey-held", "(on-press press-vkey v1)", "b", ""),
     ("overrides", "lsft", "x", "(defoverrides (lsft x) (y))"),
     ("zippy", "a", "b", "(defzippy zippy.txt on-first-press-chord-deadline 20 idle-reactivate-time 5)"),
+    // key names that exist only through this file's deflocalkeys (kx), or that it redefines (yen)
+    ("localkeys", "kx", "yen", "(deflocalkeys-linux kx 45 yen 26)"),
 ];
 
 fn old_cfg(i: usize, reload_keys: bool) -> String {
@@ -65,6 +67,8 @@ enum NewKind {
     Unbalanced,
     UnknownAlias,
     BadNumber,
+    /// refers to a key name that only the OLD file's deflocalkeys defined: a fresh start rejects it
+    UsesOldLocalKey,
     Empty,
     Missing,
     Directory,
@@ -89,7 +93,7 @@ fn new_kinds() -> Vec<NewKind> {
     for i in 0..NEW_VALID.len() {
         v.push(NewKind::Valid(i));
     }
-    v.extend([NewKind::BrokenLex, NewKind::Unbalanced, NewKind::UnknownAlias, NewKind::BadNumber, NewKind::Empty, NewKind::Missing, NewKind::Directory, NewKind::InvalidUtf8]);
+    v.extend([NewKind::BrokenLex, NewKind::Unbalanced, NewKind::UnknownAlias, NewKind::BadNumber, NewKind::UsesOldLocalKey, NewKind::Empty, NewKind::Missing, NewKind::Directory, NewKind::InvalidUtf8]);
     v
 }
 
@@ -101,6 +105,7 @@ fn new_content(k: &NewKind, old: &str) -> Option<Vec<u8>> {
         NewKind::Unbalanced => format!("{old}\n(defalias x (multi a b)\n").into_bytes(),
         NewKind::UnknownAlias => "(defcfg)\n(defsrc a b c r n p 1 2)\n(deflayer base @nope b c lrld XX XX XX XX)\n".as_bytes().to_vec(),
         NewKind::BadNumber => "(defcfg)\n(defsrc a b c r n p 1 2)\n(deflayer base (tap-hold 5 70000 x y) b c lrld XX XX XX XX)\n".as_bytes().to_vec(),
+        NewKind::UsesOldLocalKey => "(defcfg)\n(defsrc a b c r n p 1 2)\n(deflayer base kx b c lrld XX XX XX XX)\n".as_bytes().to_vec(),
         NewKind::Empty => vec![],
         NewKind::InvalidUtf8 => vec![0x28, 0x64, 0x65, 0x66, 0xff, 0xfe, 0x29],
         NewKind::Missing | NewKind::Directory => return None,
